@@ -46,12 +46,14 @@ func (l *DNSNameUnderscoreInTRD) CheckApplies(c *x509.Certificate) bool {
 }
 
 func (l *DNSNameUnderscoreInTRD) Execute(c *x509.Certificate) *lint.LintResult {
+	// Names are judged as a set: an unparsable name only makes the result NA
+	// when no other name has a finding, wherever it sits in the list.
+	unparsable := false
 	if c.Subject.CommonName != "" && !util.CommonNameIsIP(c) {
 		domainInfo := c.GetParsedSubjectCommonName(false)
 		if domainInfo.ParseError != nil {
-			return &lint.LintResult{Status: lint.NA}
-		}
-		if strings.Contains(domainInfo.ParsedDomain.TRD, "_") {
+			unparsable = true
+		} else if strings.Contains(domainInfo.ParsedDomain.TRD, "_") {
 			return &lint.LintResult{Status: lint.Warn}
 		}
 	}
@@ -59,12 +61,16 @@ func (l *DNSNameUnderscoreInTRD) Execute(c *x509.Certificate) *lint.LintResult {
 	parsedSANDNSNames := c.GetParsedDNSNames(false)
 	for i := range c.GetParsedDNSNames(false) {
 		if parsedSANDNSNames[i].ParseError != nil {
-			return &lint.LintResult{Status: lint.NA}
+			unparsable = true
+			continue
 		}
 		if strings.Contains(parsedSANDNSNames[i].ParsedDomain.TRD, "_") {
 			return &lint.LintResult{Status: lint.Warn}
 		}
 	}
 
+	if unparsable {
+		return &lint.LintResult{Status: lint.NA}
+	}
 	return &lint.LintResult{Status: lint.Pass}
 }
